@@ -3,7 +3,7 @@
    area only; never Crash, never Hang; the number of commands is bounded by the size of the data area. *)
 From Coq Require Import ZArith List Bool Lia ZifyBool.
 From NV Require Import Base.Result Base.Bytes Base.PyPrims Proofs.Chunks Model.IsoDep Model.T3T Model.T4T
-  Model.TagAct Model.TagReadAnyB Proofs.T3T.
+  Model.TagAct Model.TagReadAnyB.
 Import ListNotations.
 Open Scope Z_scope.
 Ltac Zify.zify_post_hook ::= Z.to_euclidean_division_equations.
@@ -15,6 +15,45 @@ Lemma bytes_ok_firstn n (l : list Z) : bytes_ok l -> bytes_ok (firstn n l).
 Proof. revert l. induction n as [|n IH]; intros [|x l] H; cbn; try constructor. - inversion H; auto. - apply IH. inversion H; auto. Qed.
 Lemma len_firstn_le {A} n (l : list A) : len (firstn n l) <= Z.of_nat n.
 Proof. unfold len. rewrite firstn_length. lia. Qed.
+
+(* frames, block ranges and the attribute block (the facts of Proofs/T3T.v this file needs, re-proved here so that it
+   depends on the definitions of Model/T3T.v only) *)
+Lemma blk_elems_ok bl : Forall (fun b => 0 <= b < 65536) bl -> exists es, blk_elems bl = Ok es /\ len es <= 3 * len bl.
+Proof.
+  induction bl as [|b r IH]; intro H.
+  - exists []. cbn. split; auto; unfold len; cbn; lia.
+  - inversion H as [|? ? Hb Hr]; subst. destruct (IH Hr) as (er & E & L1).
+    cbn [blk_elems]. unfold blk_elem. replace (b <? 0) with false by lia.
+    destruct (b <? 256) eqn:E256.
+    + cbn [bind]. rewrite E. cbn [bind]. eexists; split; [reflexivity|]. rewrite len_app, !len_cons, len_nil. lia.
+    + replace (b <? 65536) with true by lia. cbn [bind]. rewrite E. cbn [bind]. eexists; split; [reflexivity|].
+      rewrite len_app, !len_cons, len_nil. lia.
+Qed.
+Lemma rd_frame_ok idm bl : len idm = 8 -> Forall (fun b => 0 <= b < 65536) bl -> len bl <= 80 -> exists f, rd_frame idm bl = Ok f.
+Proof.
+  intros Hi Hb Hn. destruct (blk_elems_ok bl Hb) as (es & E & L).
+  unfold rd_frame. rewrite E. cbn [bind]. replace (len bl >? 255) with false by lia.
+  unfold t3_frame. rewrite len_app, !len_cons, len_nil.
+  replace (2 + len idm + (1 + (1 + (1 + (1 + 0))) + len es) >? 255) with false by lia. eexists; reflexivity.
+Qed.
+Lemma zrange_len' a b : a <= b -> len (zrange a b) = b - a.
+Proof. intro. unfold len. rewrite zrange_len. lia. Qed.
+Lemma Forall_zrange (P : Z -> Prop) a b : (forall x, a <= x < b -> P x) -> Forall P (zrange a b).
+Proof. intro H. apply Forall_forall. intros x Hx. apply H, in_zrange, Hx. Qed.
+Definition attrs_ok (a : attrs) : Prop :=
+  0 <= a_ver a < 256 /\ 0 <= a_nbr a < 256 /\ 0 <= a_nbw a < 256 /\ 0 <= a_nmaxb a < 65536 /\
+  0 <= a_writef a < 256 /\ 0 <= a_rwflag a < 256 /\ 0 <= a_ln a < 16777216.
+Lemma nth_byte_ok d k : bytes_ok d -> 0 <= nth k d 0 < 256.
+Proof. intro H. destruct (nth_in_or_default k d 0) as [Hin| ->]; [|lia]. unfold bytes_ok in H. rewrite Forall_forall in H. apply H, Hin. Qed.
+Lemma attr_parse_ok d a : bytes_ok d -> attr_parse d = Some a -> attrs_ok a.
+Proof.
+  intros Hb. unfold attr_parse. destruct (_ =? _); [|discriminate]. intro E. inversion E; subst; clear E.
+  unfold attrs_ok, bt. cbn [a_ver a_nbr a_nbw a_nmaxb a_writef a_rwflag a_ln].
+  pose proof (nth_byte_ok d 0 Hb). pose proof (nth_byte_ok d 1 Hb). pose proof (nth_byte_ok d 2 Hb).
+  pose proof (nth_byte_ok d 3 Hb). pose proof (nth_byte_ok d 4 Hb). pose proof (nth_byte_ok d 9 Hb).
+  pose proof (nth_byte_ok d 10 Hb). pose proof (nth_byte_ok d 11 Hb). pose proof (nth_byte_ok d 12 Hb).
+  pose proof (nth_byte_ok d 13 Hb). lia.
+Qed.
 
 (* ------------------------------------------------------------ Type 3: the air *)
 Definition ax_ok (a : aresult) : Prop := match a with ARx d => bytes_ok d | _ => True end.
@@ -400,18 +439,17 @@ Proof.
   destruct f as [|r w cap d]; [exact I|]. cbn [t4_sound] in S2. destruct S2 as (-> & Hl & Hd & _). auto.
 Qed.
 
-(* the code before the repairs (Model/T4T.v against an honest card): NLEN beyond the end of the file makes the reader
-   repeat a READ BINARY that yields nothing, for ever; NLEN beyond the declared file size is reported as it is *)
-Definition ex_cc (mfs : Z) : list Z := [0; 15; 32; 0; 59; 0; 52; 4; 6; 225; 4; mfs / 256; mfs mod 256; 0; 0].
-Definition ex_card (mfs : Z) (file : list Z) : card := mkCard (ex_cc mfs) [225; 4] file true false false 0 (-1) [].
-Definition script_of_card (mfs : Z) (file : list Z) : list ares :=
-  [AOk [144; 0]; AOk [144; 0]; AOk [0; 15; 144; 0]; AOk (skipn 2 (ex_cc mfs) ++ [144; 0]); AOk [144; 0];
-   AOk (firstn 2 file ++ [144; 0])].
+(* the code before the repairs: a card that answers every READ BINARY of the NDEF file with 9000 and no data keeps the
+   reader busy for as long as it answers (here: all 4097 reads the fuel allows); NLEN beyond the declared file size
+   is reported as it is, length 64 > capacity 14 *)
+Definition ex_info (mfs : Z) : ccinfo := mkInfo 59 52 (mfs - 2) true true 2 [225; 4] 12.
 Lemma t4_read_legacy_refuted :
-  t4_fresh (ex_card 256 ([16; 0] ++ repeat 7 100)) = Hang /\
-  fst (t4_read_any (mkChan (script_of_card 256 ([16; 0] ++ repeat 7 100)) [] [])) = Ok (NoNdef, Some (mkInfo 59 52 254 true true 2 [225; 4] 12)) /\
-  (exists d, t4_fresh (ex_card 16 ([0; 64] ++ repeat 7 100)) = Ok (Ndef true true 14 d) /\ len d = 64) /\
-  fst (t4_read_any (mkChan (script_of_card 16 ([0; 64] ++ repeat 7 100)) [] [])) = Ok (NoNdef, Some (mkInfo 59 52 14 true true 2 [225; 4] 12)).
+  fst (read_with_legacy (mkChan ([AOk [144; 0]; AOk [16; 0; 144; 0]] ++ repeat (AOk [144; 0]) 4200) [] []) (ex_info 256)) = Hang /\
+  fst (read_with_any (mkChan ([AOk [144; 0]; AOk [16; 0; 144; 0]] ++ repeat (AOk [144; 0]) 4200) [] []) (ex_info 256)) = Ok NoNdef /\
+  (exists d, fst (read_with_legacy (mkChan [AOk [144; 0]; AOk [0; 64; 144; 0]; AOk (repeat 7 59 ++ [144; 0]); AOk (repeat 7 5 ++ [144; 0])] [] [])
+                                   (ex_info 16)) = Ok (Ndef true true 14 d) /\ len d = 64) /\
+  fst (read_with_any (mkChan [AOk [144; 0]; AOk [0; 64; 144; 0]; AOk (repeat 7 59 ++ [144; 0]); AOk (repeat 7 5 ++ [144; 0])] [] [])
+                     (ex_info 16)) = Ok NoNdef.
 Proof.
   split; [vm_compute; reflexivity|]. split; [vm_compute; reflexivity|].
   split; [eexists; split; vm_compute; reflexivity | vm_compute; reflexivity].
